@@ -9,9 +9,10 @@
 -/
 import DlmsVerif.Model.Rx
 import DlmsVerif.Props.C09
+import DlmsVerif.Lemmas.Rx
 
 namespace Props.C10
-open Model.Rx
+open Model.Rx Lemmas.Rx
 
 /-- bytes on the line for a list of frame bodies (the bytes between the flags);
     `sh[i] = true` means frame `i+1` re-uses the closing flag of frame `i` as its opening flag. -/
@@ -42,6 +43,99 @@ inductive AllGood {F : Type} (parse : Bytes → Option F) : List Bytes → List 
   | nil : AllGood parse [] []
   | cons {b f bs fs} : Good parse b f → AllGood parse bs fs → AllGood parse (b :: bs) (f :: fs)
 
+
+/-! ### helpers -/
+
+private theorem endsAux_gt : ∀ (bs : List Bytes) (off : Nat) (op : Bool) (sh : List Bool) (x : Nat),
+    x ∈ endsAux off op bs sh → off < x := by
+  intro bs
+  induction bs with
+  | nil => intro off op sh x hx; simp [endsAux] at hx
+  | cons b bs ih =>
+    intro off op sh x hx
+    simp only [endsAux, List.mem_cons] at hx
+    rcases hx with hx | hx
+    · omega
+    · have := ih _ _ _ x hx
+      omega
+
+private theorem pre_cases (op : Bool) :
+    (if op = true then ([0x7E] : Bytes) else []) = [] ∨ (if op = true then ([0x7E] : Bytes) else []) = [0x7E] := by
+  cases op <;> simp
+
+private theorem pre_len (op : Bool) :
+    (if op = true then ([0x7E] : Bytes) else []).length = if op = true then 1 else 0 := by
+  cases op <;> simp
+
+/-- draining a prefix of the wire at once delivers the frames that end within it. -/
+private theorem batch {F : Type} (parse : Bytes → Option F) (bodies : List Bytes) (fs : List F)
+    (hg : AllGood parse bodies fs) :
+    ∀ (op : Bool) (sh : List Bool) (off k : Nat),
+      (drain parse { buf := (wireAux op bodies sh).take k, pos := 1 }).2
+        = fs.take ((endsAux off op bodies sh).filter (· ≤ off + k)).length := by
+  induction hg with
+  | nil =>
+    intro op sh off k
+    simp only [wireAux, List.take_nil, endsAux, List.filter_nil, List.length_nil]
+    rw [drain_not_pending parse _ (by rfl)]
+  | @cons b f bs fs hgood _ ih =>
+    intro op sh off k
+    obtain ⟨hb, hh, hP1, hP2⟩ := hgood
+    have hbl : 1 ≤ b.length := List.length_pos_iff.mpr hb
+    have hs := scan parse (if op = true then [0x7E] else []) b
+      (wireAux (!(sh.headD false)) bs sh.tail) f (pre_cases op) hb hh hP1 hP2 k
+      ((if op = true then ([0x7E] : Bytes) else []).length + b.length + 1) 1 (by omega)
+      (Nat.le_refl 1) (by omega)
+    rw [pre_len] at hs
+    simp only [wireAux, endsAux]
+    by_cases hk : (if op = true then 1 else 0) + b.length < k
+    · rw [hs.1 hk]
+      have hle : off + (if op = true then 1 else 0) + b.length + 1 ≤ off + k := by omega
+      rw [List.filter_cons_of_pos (by simpa using hle)]
+      simp only [List.length_cons, List.take_succ_cons]
+      rw [ih (!(sh.headD false)) sh.tail (off + (if op = true then 1 else 0) + b.length + 1)
+        (k - ((if op = true then 1 else 0) + b.length + 1))]
+      have e : off + (if op = true then 1 else 0) + b.length + 1 +
+          (k - ((if op = true then 1 else 0) + b.length + 1)) = off + k := by omega
+      rw [e]
+    · rw [hs.2 (by omega)]
+      have hnle : ¬ off + (if op = true then 1 else 0) + b.length + 1 ≤ off + k := by omega
+      rw [List.filter_cons_of_neg (by simpa using hnle)]
+      have : (endsAux (off + (if op = true then 1 else 0) + b.length + 1) (!(sh.headD false)) bs sh.tail).filter
+          (· ≤ off + k) = [] := by
+        rw [List.filter_eq_nil_iff]
+        intro x hx
+        have := endsAux_gt _ _ _ _ x hx
+        simp only [decide_eq_true_eq]
+        omega
+      rw [this]
+      rfl
+
+/-- draining the whole wire at once delivers every frame and leaves nothing. -/
+private theorem batch_full {F : Type} (parse : Bytes → Option F) (bodies : List Bytes) (fs : List F)
+    (hg : AllGood parse bodies fs) :
+    ∀ (op : Bool) (sh : List Bool),
+      drain parse { buf := wireAux op bodies sh, pos := 1 } = ({ buf := [], pos := 1 }, fs) := by
+  induction hg with
+  | nil =>
+    intro op sh
+    simp only [wireAux]
+    rw [drain_not_pending parse _ (by rfl)]
+  | @cons b f bs fs hgood _ ih =>
+    intro op sh
+    obtain ⟨hb, hh, hP1, hP2⟩ := hgood
+    have hbl : 1 ≤ b.length := List.length_pos_iff.mpr hb
+    have hs := scan parse (if op = true then [0x7E] else []) b
+      (wireAux (!(sh.headD false)) bs sh.tail) f (pre_cases op) hb hh hP1 hP2
+      ((if op = true then [0x7E] else []) ++ b ++ [0x7E] ++ wireAux (!(sh.headD false)) bs sh.tail).length
+      ((if op = true then ([0x7E] : Bytes) else []).length + b.length + 1) 1 (by omega)
+      (Nat.le_refl 1) (by omega)
+    have h1 := hs.1 (by simp only [List.length_append, List.length_cons, List.length_nil]; omega)
+    rw [List.take_length, List.take_of_length_le
+      (by simp only [List.length_append, List.length_cons, List.length_nil]; omega), ih] at h1
+    simp only [wireAux]
+    exact h1
+
 /-- **silent before complete / exactly once / in order**: after any chunks whose
     concatenation is the first `k` bytes of the stream, exactly the frames whose last byte
     lies within those `k` bytes have been delivered, in order, each once. -/
@@ -50,7 +144,9 @@ theorem C10_prefix_delivery {F : Type} (parse : Bytes → Option F)
     (hg : AllGood parse bodies fs)
     (chunks : List Bytes) (k : Nat) (hc : chunks.flatten = (wire bodies sh).take k) :
     (feed parse chunks).2 = fs.take ((ends bodies sh).filter (· ≤ k)).length := by
-  sorry
+  rw [feed_eq_drain, hc]
+  have := batch parse bodies fs hg true sh 0 k
+  simpa [wire, ends] using this
 
 /-- **chunking is irrelevant**: whatever the partition of the stream into chunks, polling
     until nothing is pending after each chunk delivers exactly the frames, in order, each
@@ -60,7 +156,8 @@ theorem C10_chunking_irrelevant {F : Type} (parse : Bytes → Option F)
     (hg : AllGood parse bodies fs)
     (chunks : List Bytes) (hc : chunks.flatten = wire bodies sh) :
     feed parse chunks = ({ buf := [], pos := 1 }, fs) := by
-  sorry
+  rw [feed_eq_drain, hc]
+  exact batch_full parse bodies fs hg true sh
 
 def parseOpt (crc : Bytes → Bytes) (k : Model.Hdlc.PKind) (fb : Bytes) : Option Model.Hdlc.Parsed :=
   match Model.Hdlc.parse crc k fb with
@@ -74,6 +171,34 @@ theorem C10_good_of_wf (crc : Bytes → Bytes) (hcrc : ∀ x, (crc x).length = 2
     (ht : Props.C09.addrTypesOk k f = true) (h : Spec.Hdlc.WF f = true) (bs : Bytes)
     (hs : Spec.Hdlc.serializeWith crc f = some bs) :
     ∃ b p, bs = 0x7E :: b ++ [0x7E] ∧ Good (parseOpt crc k) b p ∧ p.toFrame k = f := by
-  sorry
+  obtain ⟨ctl, _, hbs⟩ := Lemmas.Hdlc.shape crc f h bs hs
+  obtain ⟨p, hp, hpf⟩ := Props.C09.C09_parse_serialize crc hcrc k f hk ht h bs hs
+  obtain ⟨_, _, hlen, _⟩ := Lemmas.Hdlc.WF_parts f h
+  have hbs' : bs = 0x7E :: (Lemmas.Hdlc.bodyOf crc f ctl ++ crc (Lemmas.Hdlc.bodyOf crc f ctl)) ++ [0x7E] := by
+    rw [hbs]; simp
+  refine ⟨Lemmas.Hdlc.bodyOf crc f ctl ++ crc (Lemmas.Hdlc.bodyOf crc f ctl), p, hbs', ⟨?_, ?_, ?_, ?_⟩, hpf⟩
+  · intro he
+    have := congrArg List.length he
+    simp [hcrc] at this
+  · rw [Lemmas.Hdlc.bodyOf_eq]
+    have hne : UInt8.ofNat ((0xA000 + 2048 * f.segmented.toNat + Spec.Hdlc.frameLength f) / 256 % 256) ≠ 0x7E := by
+      intro he
+      have := congrArg UInt8.toNat he
+      have hseg : f.segmented.toNat ≤ 1 := by cases f.segmented <;> simp
+      simp at this
+      omega
+    simp only [Lemmas.Hdlc.fmtOf, Dlms.beBytes]
+    simpa using hne
+  · rw [← hbs']
+    unfold parseOpt; rw [hp]
+  · intro n hn
+    have e : 0x7E :: ((Lemmas.Hdlc.bodyOf crc f ctl ++ crc (Lemmas.Hdlc.bodyOf crc f ctl)) ++ [0x7E]).take n
+        = bs.take (n + 1) := by rw [hbs']; rfl
+    have hl : bs.length
+        = ((Lemmas.Hdlc.bodyOf crc f ctl ++ crc (Lemmas.Hdlc.bodyOf crc f ctl)) ++ [0x7E]).length + 1 := by
+      rw [hbs']; rfl
+    obtain ⟨e', he'⟩ := Props.C09.C09_truncated_refused crc hcrc k f h bs hs (n + 1) (by omega)
+    rw [e]
+    unfold parseOpt; rw [he']
 
 end Props.C10
